@@ -18,3 +18,15 @@ fp("dask/dataframe/dask_expr/_expr.py", "Blockwise._task", "Blockwise._blockwise
 # C37
 fp("dask/dataframe/dask_expr/_reductions.py", "TreeReduce._layer", "TreeReduce.split_every", "ApplyConcatApply._lower",
    "Reduction.chunk", "Reduction.combine", "Reduction.aggregate", "Sum", "Max", "Count", "Mean._lower")
+
+# C43
+fp("dask/_expr.py", "Expr.simplify", "Expr.simplify_once", "Expr.lower_once", "Expr.lower_completely", "optimize_until")
+fp("dask/dataframe/dask_expr/_expr.py", "Projection._simplify_down", "Filter._simplify_up", "Assign._simplify_down",
+   "Assign._simplify_up", "Assign._remove_common_columns", "plain_column_projection", "determine_column_projection",
+   "is_filter_pushdown_available", "Blockwise._simplify_up", "optimize_blockwise_fusion")
+
+# C42
+fp("dask/dataframe/dask_expr/_expr.py", "Blockwise._meta", "Projection._meta", "Assign._meta")
+fp("dask/dataframe/dispatch.py", "make_meta", "meta_nonempty")
+fp("dask/dataframe/utils.py", "_scalar_from_dtype")
+fp("dask/dataframe/backends.py", "_nonempty_series")
